@@ -511,3 +511,178 @@ def build(spec):
     """spec = (name, kwargs)"""
     name, kw = spec
     return REGISTRY[name](**kw)
+
+
+# ----------------------------------------------------------------------------------
+# TM: restricted state+choice, unrestricted discrete state+choice, continuous state (3 states)
+# TN: two restricted states linked by a filter, two unrestricted discrete states of different size
+# ----------------------------------------------------------------------------------
+def TM(T=2):
+    import jax.numpy as jnp
+    from lcm import Model
+
+    def utility(s, d, h, e, w, U, tw):
+        return U[s, d, h, e] + tw * w
+
+    def next_s(d):
+        return d
+
+    def next_h(h, e):
+        return (h + e) % 3
+
+    def next_w(w, e):
+        return w * 0.5 + e * 0.25
+
+    def sd_filter(s, d):
+        return jnp.logical_or(d == 1, s == 0)
+
+    model = Model(
+        n_periods=T,
+        functions=dict(utility=utility, next_s=next_s, next_h=next_h, next_w=next_w, sd_filter=sd_filter),
+        choices=dict(d=dg(2), e=dg(2)),
+        states=dict(s=dg(2), h=dg(3), w=lin(0, 2, 3)),
+    )
+
+    def params(mk):
+        return {"beta": mk.real("beta"), "utility": {"U": mk.real("U", (2, 2, 3, 2)), "tw": mk.real("tw")}, "next_s": {}, "next_h": {}, "next_w": {}, "sd_filter": {}}
+
+    def init(mk, n):
+        import jax.numpy as jnp
+
+        return {"s": jnp.arange(n) % 2, "h": jnp.arange(n) % 3, "w": mk.real("w0", (n,))}
+
+    return Tmpl(f"TM[T={T}]", model, params, lambda sy: [], init)
+
+
+def TN(T=2):
+    import jax.numpy as jnp
+    from lcm import Model
+
+    def utility(s, q, d, h, g, U):
+        return U[s, q, d, h, g]
+
+    def next_s(s):
+        return s
+
+    def next_q(q, d):
+        return jnp.minimum(q + d, 2) * (q + d <= 2) + q * (q + d > 2)
+
+    def next_h(h, d):
+        return (h + d) % 2
+
+    def next_g(g):
+        return (g + 1) % 3
+
+    def sq_filter(s, q, d):
+        # (s=1, q=0) admits no choice at all; d=1 is not allowed when q == 2
+        return jnp.logical_and(jnp.logical_or(s == 0, q >= 1), q + d <= 2)
+
+    model = Model(
+        n_periods=T,
+        functions=dict(utility=utility, next_s=next_s, next_q=next_q, next_h=next_h, next_g=next_g, sq_filter=sq_filter),
+        choices=dict(d=dg(2)),
+        states=dict(s=dg(2), q=dg(3), h=dg(2), g=dg(3)),
+    )
+
+    def params(mk):
+        return {"beta": mk.real("beta"), "utility": {"U": mk.real("U", (2, 3, 2, 2, 3))}, "next_s": {}, "next_q": {}, "next_h": {}, "next_g": {}, "sq_filter": {}}
+
+    def init(mk, n):
+        import jax.numpy as jnp
+
+        return {"s": jnp.zeros(n, dtype=int), "q": jnp.arange(n) % 3, "h": jnp.arange(n) % 2, "g": jnp.arange(n) % 3}
+
+    return Tmpl(f"TN[T={T}]", model, params, lambda sy: [], init)
+
+
+REGISTRY.update({"TM": TM, "TN": TN})
+
+
+def permuted(tm, sorder=None, corder=None, forder=None):
+    """the same model written down with another declaration order of states / choices / functions"""
+    m = tm.model
+
+    def reorder(d, order):
+        if order is None:
+            return dict(d)
+        keys = list(d)
+        return {keys[i]: d[keys[i]] for i in order}
+
+    model = m.replace(states=reorder(m.states, sorder), choices=reorder(m.choices, corder), functions=reorder(m.functions, forder))
+    return Tmpl(f"{tm.name}|s={sorder}|c={corder}|f={forder}", model, tm.params, tm.assume, tm.init, tm.notes, tm.extra)
+
+
+_build_plain = build
+
+
+def build(spec):  # noqa: F811
+    """spec = (name, kwargs) or (name, kwargs, sorder, corder, forder)"""
+    if len(spec) == 2:
+        return _build_plain(spec)
+    name, kw, so, co, fo = spec
+    return permuted(_build_plain((name, kw)), so, co, fo)
+
+
+def renamed(tm, name_map):
+    """consistently rename model variables and auxiliary functions (naming conventions next_*,
+    *_filter, *_constraint are kept); parameter names stay"""
+    import inspect
+
+    m = tm.model
+
+    def rn(x):
+        if x in name_map:
+            return name_map[x]
+        if x.startswith("next_") and x[5:] in name_map:
+            return "next_" + name_map[x[5:]]
+        return x
+
+    new_funcs = {}
+    for fname, f in m.functions.items():
+        args = list(inspect.signature(f).parameters)
+        new_args = [rn(a) for a in args]
+        src = f"def g({', '.join(new_args)}):\n    return __f({', '.join(f'{a}={na}' for a, na in zip(args, new_args))})\n"
+        ns = {"__f": f}
+        exec(src, ns)
+        g = ns["g"]
+        if hasattr(f, "_stochastic_info"):
+            g._stochastic_info = f._stochastic_info
+        new_funcs[rn(fname)] = g
+    model = m.replace(
+        states={rn(k): v for k, v in m.states.items()},
+        choices={rn(k): v for k, v in m.choices.items()},
+        functions=new_funcs,
+    )
+
+    def params(mk):
+        p = tm.params(mk)
+        out = {}
+        for k, v in p.items():
+            if k == "shocks":
+                out[k] = {rn(s): a for s, a in v.items()}
+            else:
+                out[rn(k)] = v
+        return out
+
+    def init(mk, n):
+        return {rn(k): v for k, v in tm.init(mk, n).items()}
+
+    t2 = Tmpl(f"{tm.name}|renamed", model, params, tm.assume, init, tm.notes, dict(tm.extra))
+    t2.extra["name_map"] = dict(name_map)
+    return t2
+
+
+def with_functions(tm, extra_funcs, drop=(), tag="+"):
+    """the same model with additional (e.g. always-true) functions / without some functions"""
+    m = tm.model
+    funcs = {k: v for k, v in m.functions.items() if k not in drop}
+    funcs.update(extra_funcs)
+    model = m.replace(functions=funcs)
+
+    def params(mk):
+        p = {k: v for k, v in tm.params(mk).items() if k not in drop}
+        for k in extra_funcs:
+            p.setdefault(k, {})
+        return p
+
+    return Tmpl(f"{tm.name}|{tag}", model, params, tm.assume, tm.init, tm.notes, dict(tm.extra))
